@@ -1,59 +1,24 @@
-// scratch probes: which whole-algorithm calls finish in CBMC on LITERAL input?
-use crate::relate::Relate;
-use crate::{BooleanOps, Area, InteriorPoint, Simplify};
-
+// scratch probes (not registered)
+use crate::monotone::monotone_subdivision;
+use crate::triangulate_earcut::TriangulateEarcut;
+use crate::Area;
 #[cfg(kani)]
 fn pc(x: f64, y: f64) -> Coord<f64> { Coord { x, y } }
-#[cfg(kani)]
-fn sq(o: f64, s: f64) -> Polygon<f64> { Polygon::new(LineString(vec![pc(o, o), pc(o + s, o), pc(o + s, o + s), pc(o, o + s), pc(o, o)]), vec![]) }
 
-/// deterministic, constant-foldable square root (Newton; CBMC's own sqrt is a constraint, not a computation)
-#[cfg(kani)]
-fn hypot_newton(a: f64, b: f64) -> f64 {
-    if b == 0.0 { return a.abs(); }
-    if a == 0.0 { return b.abs(); }
-    let x = a * a + b * b;
-    let mut r = if x > 1.0 { x } else { 1.0 };
-    let mut i = 0;
-    while i < 40 { r = 0.5 * (r + x / r); i += 1; }
-    r
+#[cfg(kani)] #[kani::proof] #[kani::unwind(30)] #[kani::stub(robust::orient2d, robust_orient2d_model)]
+fn probe_monotone() {
+    // concave (L-shaped) polygon
+    let p = Polygon::new(LineString(vec![pc(0., 0.), pc(6., 0.), pc(6., 2.), pc(2., 2.), pc(2., 6.), pc(0., 6.), pc(0., 0.)]), vec![]);
+    let pieces = monotone_subdivision([p]);
+    let mut a = 0.0;
+    for m in pieces { a += m.into_polygon().unsigned_area(); }
+    assert!(a == 20.0);
 }
-
-#[cfg(kani)] #[kani::proof] #[kani::unwind(50)]
-fn probe_relate_poly_point() {
-    let m = sq(0.0, 4.0).relate(&Point(pc(2.0, 2.0)));
-    assert!(m.is_contains());
-}
-#[cfg(kani)] #[kani::proof] #[kani::unwind(50)]
-fn probe_relate_poly_poly() {
-    let m = sq(0.0, 4.0).relate(&sq(2.0, 4.0));
-    assert!(m.is_intersects() && !m.is_contains());
-}
-#[cfg(kani)] #[kani::proof] #[kani::unwind(50)]
-fn probe_boolop_intersection() {
-    let i = sq(0.0, 4.0).intersection(&sq(2.0, 4.0));
-    assert!(i.unsigned_area() == 4.0);
-}
-#[cfg(kani)] #[kani::proof] #[kani::unwind(12)]
-fn probe_gc_bounding_rect() {
-    let gc = GeometryCollection(vec![Geometry::Point(Point(pc(1.0, 2.0))), Geometry::MultiPoint(MultiPoint(vec![])), Geometry::Point(Point(pc(0.0, 5.0)))]);
-    let r = gc.bounding_rect().unwrap();
-    assert!(r.min() == pc(0.0, 2.0) && r.max() == pc(1.0, 5.0));
-}
-#[cfg(kani)] #[kani::proof] #[kani::unwind(50)] #[kani::stub(f64::hypot, hypot_newton)]
-fn probe_simplify() {
-    let ls = LineString(vec![pc(0., 0.), pc(5., 4.), pc(11., 5.5), pc(17.3, 3.2), pc(27.8, 0.1)]);
-    let out = ls.simplify(1.0);
-    assert!(out.0.len() == 4);
-}
-#[cfg(kani)] #[kani::proof] #[kani::unwind(50)] #[kani::stub(f64::hypot, hypot_newton)]
-fn probe_polygon_distance() {
-    use crate::line_measures::{Distance, Euclidean};
-    let d = Euclidean.distance(&sq(0.0, 4.0), &sq(7.0, 2.0));
-    assert!(d > 4.2 && d < 4.3);
-}
-#[cfg(kani)] #[kani::proof] #[kani::unwind(50)]
-fn probe_interior_point() {
-    let p = sq(0.0, 4.0).interior_point();
-    assert!(p.is_some());
+#[cfg(kani)] #[kani::proof] #[kani::unwind(30)]
+fn probe_earcut() {
+    let p = Polygon::new(LineString(vec![pc(0., 0.), pc(6., 0.), pc(6., 2.), pc(2., 2.), pc(2., 6.), pc(0., 6.), pc(0., 0.)]), vec![]);
+    let tris = p.earcut_triangles();
+    let mut a = 0.0;
+    for t in &tris { a += t.unsigned_area(); }
+    assert!(a == 20.0 && tris.len() == 4);
 }
